@@ -186,9 +186,14 @@ def unbounded_case(M, m, n, kkind, direction):
             apex = np.array(fs.predict(Ae, be, list(v["lb"])), dtype=float)
             out = r.uniform(0.5, 9.0, size=s)
             for i in range(s[0]):
-                if r.uniform() < 0.5:
+                u = r.uniform()
+                if u < 0.3:
                     mu = r.uniform(0.2, 0.8)
                     out[i] = apex.min() + mu * (apex - apex.min())
+                elif u < 0.8:
+                    # the capture of intensities partly BELOW their lower bounds (the region a misplaced apex wrongly accepts)
+                    x = np.asarray(v["lb"], dtype=float) * r.uniform(0.7, 0.98, size=len(v["lb"])) + r.choice([0.0, 0.0, 1.0], size=len(v["lb"])) * r.uniform(0.0, 1.0, size=len(v["lb"]))
+                    out[i] = np.array(fs.predict(Ae, be, list(x)), dtype=float)
             return out
         B = M.real("B", (rows, m), sample=_b_sample)
     else:
